@@ -54,7 +54,17 @@ fn variance(vals: &[f64]) -> f64 {
 fn one(ctx: &mut Ctx, env: &Env, rng: &mut Rng, base: &Engine, rv: &RefVoice, descr: &str, idx: usize) {
     let nstate = rv.num_states;
     let nl = rng.range(10, if ctx.quick() { 30 } else { 60 });
-    let labels: Vec<Label> = if idx % 2 == 0 { env.corpus.utterance(rng, nl, 0) } else { env.corpus.utterance(rng, nl, 1) };
+    let mut labels: Vec<Label> = if idx % 2 == 0 { env.corpus.utterance(rng, nl, 0) } else { env.corpus.utterance(rng, nl, 1) };
+    if idx % 5 == 4 {
+        // pause-heavy: a short utterance with many pause labels mixed in, so that the eligible
+        // frames are a small share of all frames (they may still number more than 100)
+        labels.truncate(rng.range(10, 14));
+        for _ in 0..rng.range(5, 9) {
+            let at = rng.below(labels.len() + 1);
+            labels.insert(at, env.corpus.silence_label(rng));
+        }
+        ctx.count("pause_heavy_utterances", 1.0);
+    }
     let text0 = labels[0].to_string();
     let d = |extra: J| J::obj().set("voice", descr).set("nlabels", labels.len()).set("first_label", text0.clone()).set("observed", extra);
     let grid = [0.25, 0.5, 1.0, 2.0];
@@ -272,25 +282,41 @@ pub fn run(ctx: &mut Ctx) {
     });
     // two voices with different GV targets: the variance follows the GV Gaussian blended with the
     // GV interpolation weights of that stream (not the parameter weights)
-    let n = ctx.n(12, 300);
+    let n = ctx.n(24, 400);
     ctx.run_cases("two-voices", n, false, |ctx, rng, idx| {
         use crate::env::engine_from_voices;
         use jbonsai::model::load_htsvoice_file;
         use std::sync::Arc;
+        // two or three voices: the bundled one and copies whose GV means are scaled
+        let three = idx % 3 == 2;
         let factor = *rng.pick(&[2.0, 0.5, 3.0]);
-        let bytes2 = voicegen::scale_gv_means(&env.bundled_bytes, factor);
-        let p2 = env.voice_file(&bytes2);
-        let (Ok(v1), Ok(v2)) = (load_htsvoice_file(&env.bundled_path), load_htsvoice_file(&p2)) else {
-            ctx.inconclusive("two-voice set does not load");
+        let factor3 = *rng.pick(&[0.25, 4.0, 1.5]);
+        let factors: Vec<f64> = if three { vec![1.0, factor, factor3] } else { vec![1.0, factor] };
+        let mut vs = Vec::new();
+        for f in &factors {
+            let p = if *f == 1.0 { env.bundled_path.clone() } else { env.voice_file(&voicegen::scale_gv_means(&env.bundled_bytes, *f)) };
+            let v = load_htsvoice_file(&p);
+            if *f != 1.0 {
+                env.remove(&p);
+            }
+            match v {
+                Ok(v) => vs.push(Arc::new(v)),
+                Err(_) => {
+                    ctx.inconclusive("voice set with scaled GV means does not load");
+                    return;
+                }
+            }
+        }
+        let Ok(mut e) = engine_from_voices(vs) else {
+            ctx.violation("engine-construction", J::from("bundled + GV-scaled copies"));
             return;
         };
-        env.remove(&p2);
-        let Ok(mut e) = engine_from_voices(vec![Arc::new(v1), Arc::new(v2)]) else {
-            ctx.violation("engine-construction", J::from("bundled + GV-scaled copy"));
-            return;
+        let (wg, wp): (Vec<f64>, Vec<f64>) = if three {
+            // (interior and leading zeros included)
+            (rng.pick(&[vec![0.5, 0.0, 0.5], vec![0.0, 0.5, 0.5], vec![0.25, 0.0, 0.75], vec![0.25, 0.5, 0.25], vec![0.0, 0.0, 1.0]]).clone(), rng.pick(&[vec![0.5, 0.25, 0.25], vec![1.0, 0.0, 0.0], vec![0.25, 0.5, 0.25]]).clone())
+        } else {
+            (rng.pick(&[vec![1.0, 0.0], vec![0.0, 1.0], vec![0.5, 0.5], vec![0.25, 0.75]]).clone(), rng.pick(&[vec![0.5, 0.5], vec![1.0, 0.0], vec![0.75, 0.25]]).clone())
         };
-        let wg = *rng.pick(&[[1.0, 0.0], [0.0, 1.0], [0.5, 0.5], [0.25, 0.75]]);
-        let wp = *rng.pick(&[[0.5, 0.5], [1.0, 0.0], [0.75, 0.25]]);
         let stream = idx % 2;
         {
             let iw = e.condition.get_interporation_weight_mut();
@@ -328,12 +354,12 @@ pub fn run(ctx: &mut Ctx) {
             let vals: Vec<f64> = tr.iter().zip(&el).filter(|(_, e)| **e).map(|(f, _)| f[k]).collect();
             let v = variance(&vals);
             // interpolated GV mean: the second voice's is `factor` times the first's
-            let target = gw * (wg[0] * gv.mean[k] + wg[1] * factor * gv.mean[k]);
+            let target = gw * wg.iter().zip(&factors).map(|(w, f)| w * f * gv.mean[k]).sum::<f64>();
             let ratio = v / target;
             if !(0.8..=1.2).contains(&ratio) {
                 ctx.violation(
                     "variance-does-not-follow-the-gv-interpolation-weights",
-                    J::obj().set("stream", stream).set("coefficient", k).set("gv_interpolation_weights", fvec(&wg, 4)).set("parameter_interpolation_weights", fvec(&wp, 4)).set("gv_scale_of_second_voice", factor).set("gv_weight", gw).set("ratio", ratio).set("eligible_frames", cnt),
+                    J::obj().set("stream", stream).set("coefficient", k).set("gv_interpolation_weights", fvec(&wg, 4)).set("parameter_interpolation_weights", fvec(&wp, 4)).set("gv_scales_of_the_voices", fvec(&factors, 4)).set("gv_weight", gw).set("ratio", ratio).set("eligible_frames", cnt),
                 );
                 return;
             }
